@@ -69,7 +69,7 @@ let inconclusive c = c = 3 || c = 10
 
 let f _id vs =
   match vs with
-  | [I "1"; cl; _] ->
+  | [I "1"; cl; _; _] ->
     let c = as_int cl in
     if bad_class c then "PROP request outcome " ^ class_name c else "OK"
 
